@@ -10,6 +10,7 @@ import vlib
 from props import hashcommon as hc
 
 HL = {"sha1": 20, "sha256": 32, "sha512": 64, "sha3_256": 32, "blake2s": 32, "sha224": 28, "sha384": 48}
+HL.update({a: v[2] for a, v in list(hc.MD.items()) + list(hc.SPONGE.items())})
 
 
 def cost_kdf(rec):
@@ -56,6 +57,16 @@ def run(R):
         for i, (sl, used, fin) in enumerate([(13, 5, False), (bs + 17, 9, False), (bs + 1, 70, True), (bs, 1, True)]):
             evs.append(dict({"op": "hkdf_extract", "alg": alg, "salt": rb("usalt%s%d" % (alg, i), sl), "ikm": rb("uikm%s%d" % (alg, i), 20), "n": hl, "used": rb("used", used), "used_final": fin}, **extra))
             evs.append(dict({"op": "hkdf_expand", "alg": alg, "prk": rb("uprk%s%d" % (alg, i), sl), "info": rb("ui", 3), "n": hl + 3, "used": rb("used", used), "used_final": fin}, **extra))
+    # ---- every other digest the generic functions can be instantiated with (block size and output length come from the digest's own trait
+    # constants): one extract, one expand across a block boundary of the output, one PBKDF2 with two iterations and a key longer than the block
+    main = {"sha256", "sha512", "sha1"} | ({"sha3_256"} if thorough else set())
+    for alg in hc.FIXED:
+        if alg in main:
+            continue
+        hl, bs = (hc.MD.get(alg) or hc.SPONGE.get(alg))[2], hc.block_of(alg)
+        evs.append({"op": "hkdf_extract", "alg": alg, "salt": rb("dsalt" + alg, 13), "ikm": rb("dikm" + alg, 22), "n": hl})
+        evs.append({"op": "hkdf_expand", "alg": alg, "prk": rb("dprk" + alg, hl), "info": rb("dinfo" + alg, 5), "n": hl + 3})
+        evs.append({"op": "pbkdf2", "alg": alg, "pw": rb("dpw" + alg, bs + 9 if len(alg) % 2 else 11), "salt": rb("dps" + alg, 7), "c": 2, "n": hl + 1})
     # ---- PBKDF2
     # block indices beyond 2^16 (INT(i) is four octets): a long derived key of which the blocks around the byte boundaries of the index are
     # validated (the blocks are independent of each other, so TLC recomputes only those)
